@@ -218,7 +218,10 @@ func (l layout) primaryContent(d caseDirs, idx int, k poolKey) []byte {
 // ---------------------------------------------------------------------------------
 // the case: a program
 
-// Op kinds: create (A = key index, M = 1 write in place / 0 rename into place),
+// Op kinds: create (A = key index, M = the way the file appears, see createFile: 0 moved in
+// from a staging directory, 1 written in place, 2 temporary name then renamed, 3 created empty
+// then filled, 4 hard-linked in, 5 written then replaced, 6 written in two chunks, 7 moved up
+// from a sub-directory),
 // alias (A = key index created earlier by the same goroutine; a second file name
 // "0x…" for the same address), refresh, accounts, listen (A = channel capacity),
 // sign / signtyped / walletfile (A = key index), close.  Y = runtime.Gosched()
@@ -236,6 +239,7 @@ type ProgramCase struct {
 	Layout           string `json:"layout"`
 	Pre              int    `json:"pre"`               // key files 0..Pre-1 exist before Initialize
 	InitialListeners int    `json:"initial_listeners"` // passed to NewFilesystemWallet
+	Sentinel         int    `json:"sentinel,omitempty"` // how the last file (discovered through events alone) appears: see createFile
 	Threads          [][]Op `json:"threads"`
 }
 
@@ -537,20 +541,102 @@ func judgeProgram(c ProgramCase) (vs []evid.Violation) {
 		}
 	}
 	var stageN atomic.Int64
-	createFile := func(idx int, alias bool, inPlace bool) error {
+	// createFile makes the primary file of key idx appear under its matching name in one of
+	// the ways a file can get there (the wallet has to notice it whichever way it came):
+	//   0 written in a staging directory next to the wallet directory, then renamed (moved) in
+	//   1 written in place under its final name
+	//   2 written under a temporary, non-matching name inside the wallet directory, then renamed
+	//   3 created empty under its final name, filled by a second open/write
+	//   4 written in the staging directory, then hard-linked in
+	//   5 written in place, then replaced by a rename over it (same content)
+	//   6 written in place in two chunks
+	//   7 written in a sub-directory of the wallet directory, then moved up
+	// It returns once the complete file is in place.
+	createFile := func(idx int, alias bool, mode int) error {
 		name := lay.fileName(ks[idx], alias)
 		content := lay.primaryContent(d, idx, ks[idx])
-		if inPlace {
-			return os.WriteFile(filepath.Join(d.wallet, name), content, 0o600)
+		final := filepath.Join(d.wallet, name)
+		staged := func(dir, prefix string) (string, error) {
+			tmp := filepath.Join(dir, fmt.Sprintf("%s%d", prefix, stageN.Add(1)))
+			return tmp, os.WriteFile(tmp, content, 0o600)
 		}
-		tmp := filepath.Join(d.stage, fmt.Sprintf("s%d", stageN.Add(1)))
-		if err := os.WriteFile(tmp, content, 0o600); err != nil {
-			return err
+		switch mode {
+		case 1:
+			return os.WriteFile(final, content, 0o600)
+		case 2:
+			tmp, err := staged(d.wallet, ".incoming-")
+			if err != nil {
+				return err
+			}
+			return os.Rename(tmp, final)
+		case 3, 6:
+			f, err := os.OpenFile(final, os.O_CREATE|os.O_WRONLY|os.O_TRUNC, 0o600)
+			if err != nil {
+				return err
+			}
+			cut := 0
+			if mode == 6 {
+				cut = len(content) / 2
+				if _, err := f.Write(content[:cut]); err != nil {
+					f.Close()
+					return err
+				}
+			}
+			if mode == 3 {
+				if err := f.Close(); err != nil {
+					return err
+				}
+				runtime.Gosched()
+				if f, err = os.OpenFile(final, os.O_WRONLY, 0o600); err != nil {
+					return err
+				}
+			} else {
+				runtime.Gosched()
+			}
+			if _, err := f.Write(content[cut:]); err != nil {
+				f.Close()
+				return err
+			}
+			return f.Close()
+		case 4:
+			tmp, err := staged(d.stage, "l")
+			if err != nil {
+				return err
+			}
+			if err := os.Link(tmp, final); err != nil && os.IsExist(err) {
+				return os.Rename(tmp, final) // a second delivery of the same name (alias op repeated): replace it
+			} else {
+				return err
+			}
+		case 5:
+			if err := os.WriteFile(final, content, 0o600); err != nil {
+				return err
+			}
+			tmp, err := staged(d.stage, "r")
+			if err != nil {
+				return err
+			}
+			return os.Rename(tmp, final)
+		case 7:
+			sub := filepath.Join(d.wallet, "incoming")
+			if err := os.MkdirAll(sub, 0o755); err != nil {
+				return err
+			}
+			tmp, err := staged(sub, "m")
+			if err != nil {
+				return err
+			}
+			return os.Rename(tmp, final)
+		default:
+			tmp, err := staged(d.stage, "s")
+			if err != nil {
+				return err
+			}
+			return os.Rename(tmp, final)
 		}
-		return os.Rename(tmp, filepath.Join(d.wallet, name))
 	}
 	for i := 0; i < c.Pre; i++ {
-		if err := createFile(i, false, false); err != nil {
+		if err := createFile(i, false, 0); err != nil {
 			return []evid.Violation{evid.V("harness", "pre-create: %v", err)}
 		}
 	}
@@ -641,7 +727,7 @@ func judgeProgram(c ProgramCase) (vs []evid.Violation) {
 				switch op.K {
 				case "create":
 					rec.Seq = seq.Add(1)
-					if err := createFile(op.A, false, op.M == 1); err != nil {
+					if err := createFile(op.A, false, op.M); err != nil {
 						ts.vs = append(ts.vs, evid.V("harness", "create file: %v", err))
 					} else {
 						mine[op.A] = true
@@ -652,7 +738,7 @@ func judgeProgram(c ProgramCase) (vs []evid.Violation) {
 						break
 					}
 					rec.Seq = seq.Add(1)
-					if err := createFile(op.A, true, op.M == 1); err != nil {
+					if err := createFile(op.A, true, op.M); err != nil {
 						ts.vs = append(ts.vs, evid.V("harness", "create alias: %v", err))
 					}
 				case "refresh":
@@ -853,7 +939,7 @@ func judgeProgram(c ProgramCase) (vs []evid.Violation) {
 		// queued and handled in order, so once it is listed every earlier event has
 		// been handled: the account list must then be complete without any Refresh.
 		firstSeq[ks[sentinel].hex40] = seq.Add(1)
-		if err := createFile(sentinel, false, false); err != nil {
+		if err := createFile(sentinel, false, c.Sentinel); err != nil {
 			vs = append(vs, evid.V("harness", "sentinel: %v", err))
 		} else {
 			created[ks[sentinel].hex40] = true
@@ -970,6 +1056,13 @@ func firstLine(s string) string {
 // ---------------------------------------------------------------------------------
 // generator
 
+// the ways a key file can appear (createFile), weighted: plain write and the atomic-publish
+// patterns (rename / move-in, which produce no write event on the final name) most often
+var appearModes = []int{0, 0, 0, 1, 1, 1, 2, 2, 3, 4, 5, 6, 7, 7}
+
+var appearNames = map[int]string{0: "moved-in-from-staging-dir", 1: "written-in-place", 2: "temp-name-then-renamed", 3: "created-empty-then-filled", 4: "hard-linked-in",
+	5: "written-then-replaced", 6: "written-in-two-chunks", 7: "moved-up-from-sub-directory"}
+
 func genProgram(rt *rapid.T, thorough bool) ProgramCase {
 	c := ProgramCase{
 		Procs:            rapid.SampledFrom([]int{1, 2, 4, 16}).Draw(rt, "gomaxprocs"),
@@ -977,6 +1070,9 @@ func genProgram(rt *rapid.T, thorough bool) ProgramCase {
 		Layout:           rapid.SampledFrom(layouts).Draw(rt, "layout").Name,
 		Pre:              rapid.SampledFrom([]int{0, 0, 1, 2, 4}).Draw(rt, "pre"),
 		InitialListeners: rapid.IntRange(0, 2).Draw(rt, "initialListeners"),
+	}
+	if c.Listener {
+		c.Sentinel = rapid.SampledFrom(appearModes).Draw(rt, "sentinelAppears")
 	}
 	if thorough && rapid.IntRange(0, 9).Draw(rt, "procsSweep") == 0 {
 		c.Procs = rapid.IntRange(1, 16).Draw(rt, "gomaxprocsAny")
@@ -1006,14 +1102,14 @@ func genProgram(rt *rapid.T, thorough bool) ProgramCase {
 				op.A = nextKey
 				nextKey++
 				mine = append(mine, op.A)
-				op.M = rapid.IntRange(0, 1).Draw(rt, lbl+".inplace")
+				op.M = rapid.SampledFrom(appearModes).Draw(rt, lbl+".appears")
 			case "alias":
 				if len(mine) == 0 {
 					op.K = "accounts"
 					break
 				}
 				op.A = rapid.SampledFrom(mine).Draw(rt, lbl+".of")
-				op.M = rapid.IntRange(0, 1).Draw(rt, lbl+".inplace")
+				op.M = rapid.SampledFrom(appearModes).Draw(rt, lbl+".appears")
 			case "listen":
 				op.A = rapid.SampledFrom([]int{0, 1, 1, 4, 64}).Draw(rt, lbl+".cap")
 			case "sign", "signtyped", "walletfile":
@@ -1059,6 +1155,7 @@ func classify(c ProgramCase) (nontrivial bool, classes []string) {
 	discoverers := map[int]bool{}
 	signers := map[int]bool{}
 	listenThreads := map[int]bool{}
+	appear := map[int]bool{}
 	for ti, th := range c.Threads {
 		createdHere := false
 		for _, op := range th {
@@ -1066,6 +1163,7 @@ func classify(c ProgramCase) (nontrivial bool, classes []string) {
 			case "create":
 				createdHere = true
 				discoverers[ti] = true
+				appear[op.M] = true
 			case "refresh":
 				discoverers[ti] = true
 			case "alias":
@@ -1105,6 +1203,14 @@ func classify(c ProgramCase) (nontrivial bool, classes []string) {
 	}
 	if c.Pre > 0 {
 		classes = append(classes, "files-before-Initialize")
+	}
+	for mde := 0; mde <= 7; mde++ {
+		if appear[mde] {
+			classes = append(classes, "file-appears:"+appearNames[mde])
+		}
+	}
+	if c.Listener {
+		classes = append(classes, "sentinel-appears:"+appearNames[c.Sentinel])
 	}
 	return n >= 2 && ((listenAfterCreate && overlapListen) || overlapSign), classes
 }
